@@ -48,7 +48,7 @@ ROOTS = {'Exception': Exception, 'HTTPError': falcon.HTTPError, 'HTTPNotFound': 
 ROOT_NAMES = ('Exception', 'HTTPError', 'HTTPNotFound', 'HTTPStatus')
 DEFAULTS = {Exception: 'default-py', falcon.HTTPError: 'default-http', falcon.HTTPStatus: 'default-status'}
 
-HID_STATUS = {'h1': 251, 'h2': 252, 'h3': 253}
+HID_STATUS = {'h1': 251, 'h2': 252, 'h3': 253, 'hM': 254}
 
 
 _PNAMES = ('x', 'item_id', 'k9')
@@ -94,6 +94,12 @@ def _handler_body(hid, req, resp, ex, params):
         raise falcon.HTTPStatus(208, {'X-From': 'hS'}, 'status-from-hS')
     if hid == 'hS0':
         raise falcon.HTTPStatus(202, {'X-From': 'hS0'})
+    if hid == 'hM':
+        # answers through resp.media and leaves the content type alone: if THAT type's handler is what failed, the
+        # handler's own representation cannot be rendered either (second failure, of whatever exception class)
+        resp.status = hid_status(hid)
+        resp.media = {'by': hid}
+        return
     resp.status = hid_status(hid)
     # media has the lowest precedence of text/data/media: anything that was not discarded shows
     resp.content_type = 'application/json'
@@ -381,7 +387,8 @@ def judge(rep, res, calls, fired, exc, hid, desc, sig, rec, where, check_params=
         bad('exception-escaped', '%s escaped the app callable: %r' % (type(res.exc).__name__, res.exc),
             exc=type(res.exc).__name__)
         return False
-    if fired != 1:
+    second_failure = hid == 'hM' and sig.get('site') == 'serialize'     # the handler's own media hits the failing handler again
+    if fired != (2 if second_failure else 1):
         bad('harness-site-not-reached', 'raise site fired %d times' % fired)
         return False
     custom = not hid.startswith('default-')
@@ -405,6 +412,8 @@ def judge(rep, res, calls, fired, exc, hid, desc, sig, rec, where, check_params=
         return False
     # -- the response -------------------------------------------------------------
     exp = expected_for(hid, desc)
+    if hid == 'hM' and sig.get('site') == 'serialize':
+        exp = {'code': hid_status(hid), 'any_body': True}     # status and headers are the handler's; no body can be rendered
     if res.code != exp['code']:
         bad('status', 'model: status %s (handler %s), response status %r body %r' % (exp['code'], hid, res.status, res.body),
             expected=str(exp['code'])[0] + 'xx', got=str(res.code)[:1] + 'xx')
@@ -419,6 +428,8 @@ def judge(rep, res, calls, fired, exc, hid, desc, sig, rec, where, check_params=
     body_kind = 'body-after-render-error' if render_site else 'body'
     if render_site and hid == 'default-py':
         # the statement promises a 500 that does not escape for non-HTTP errors, not a particular body
+        return ok
+    if exp.get('any_body'):
         return ok
     if 'json' in exp:
         try:
@@ -578,6 +589,8 @@ SITE_REGS = (
     ((0, 'hE'),),
     ((0, 'hS'),),
     ((0, 'hS0'),),
+    ((0, 'hM'),),
+    (('Exception', 'hM'),),
     (('HTTPError', 'h1'),),
     (('Exception', 'h1'),),
     ((0, 'hE'), ('HTTPError', 'h1'), ('HTTPStatus', 'h2')),
